@@ -135,7 +135,7 @@ func init() {
 		o.p("def relatedSkips : List String := %s\n", leanList(ifCondsWhoseBodyContains(gr, "continue")))
 		o.p("def relatedAddedMarks : List String := %s\n", leanList(ifCondsWhoseBodyContains(gr, "added[predID][relatedID] = true")))
 		et := mustFunc(sf, "Store", "ExecuteTransaction")
-		o.p("def txnSteps : List String := %s\n", leanList(callsIn(et.Body, "Lock", "Strings", "StoreEntitiesWithTransaction", "commitIDTxn", "Commit", "updateDataset")))
+		o.p("def txnSteps : List String := %s\n", leanList(callsIn(et.Body, "Lock", "Strings", "UnixNano", "StoreEntitiesWithTransaction", "commitIDTxn", "Commit", "updateDataset")))
 		se := mustFunc(f, "Dataset", "StoreEntities")
 		o.p("def storeSteps : List String := %s\n", leanList(callsIn(se.Body, "Lock", "Sleep", "UnixNano", "StoreEntitiesWithTransaction", "commitIDTxn", "Commit", "updateDataset")))
 		o.write(outDir, "Layout")
